@@ -1608,10 +1608,28 @@ namespace bloch::compiler {
         if (auto cast = dynamic_cast<CastExpression*>(expr))
             return typeFromAst(cast->targetType.get());
         // An assignment used as a value yields the assigned value, so it has that value's type.
-        if (auto assign = dynamic_cast<AssignmentExpression*>(expr))
-            return inferTypeInfo(assign->value.get());
-        if (auto memAssign = dynamic_cast<MemberAssignmentExpression*>(expr))
-            return inferTypeInfo(memAssign->value.get());
+        // An array literal has no type of its own: assigned, it yields an array of the target's type.
+        if (auto assign = dynamic_cast<AssignmentExpression*>(expr)) {
+            TypeInfo valueType = inferTypeInfo(assign->value.get());
+            if (!valueType.isArrayLiteral)
+                return valueType;
+            TypeInfo local = getVariableType(assign->name);
+            if (local.value != ValueType::Unknown || !local.className.empty())
+                return local;
+            if (auto field = resolveField(assign->name, assign->line, assign->column))
+                return memberTypeFrom(selfType(), field->owner, field->type);
+            return combine(ValueType::Unknown, "");
+        }
+        if (auto memAssign = dynamic_cast<MemberAssignmentExpression*>(expr)) {
+            TypeInfo valueType = inferTypeInfo(memAssign->value.get());
+            if (!valueType.isArrayLiteral)
+                return valueType;
+            auto obj = inferTypeInfo(memAssign->object.get());
+            if (!obj.className.empty())
+                if (auto* field = findFieldInHierarchy(obj, memAssign->member))
+                    return memberTypeFrom(obj, field->owner, field->type);
+            return combine(ValueType::Unknown, "");
+        }
         if (auto arrAssign = dynamic_cast<ArrayAssignmentExpression*>(expr))
             return inferTypeInfo(arrAssign->value.get());
         if (dynamic_cast<MeasureExpression*>(expr))
@@ -1783,6 +1801,10 @@ namespace bloch::compiler {
             auto collectionType = inferTypeInfo(idx->collection.get());
             if (isArrayType(collectionType) && !collectionType.typeArgs.empty())
                 return collectionType.typeArgs.front();
+            // an element of an array literal has the type of the literal's elements
+            if (auto lit = dynamic_cast<ArrayLiteralExpression*>(idx->collection.get()))
+                if (!lit->elements.empty())
+                    return inferTypeInfo(lit->elements.front().get());
             return combine(ValueType::Unknown, "");
         }
         if (auto newExpr = dynamic_cast<NewExpression*>(expr)) {
